@@ -89,10 +89,19 @@ type verifLambdaServer struct {
 
 func (s *verifLambdaServer) Run(ctx context.Context) error { return s.run(ctx) }
 
+// telemetry batches of an invocation: other record types around exactly one runtimeDone record
 var verifTelemetryBatches = []string{
 	`[{"type":"platform.runtimeDone"}]`,
 	`[{"type":"platform.start"},{"type":"platform.runtimeDone"},{"type":"platform.report"}]`,
 	`[{"type":"platform.runtimeDone","record":{"status":"success"}},{"type":"platform.report"}]`,
+	`[{"type":"platform.initRuntimeDone"},{"type":"platform.initReport"},{"type":"platform.start"},{"type":"platform.runtimeDone"}]`,
+}
+
+// batches without a runtimeDone record (cold start, extension and log records): no flush
+var verifOtherBatches = []string{
+	`[{"type":"platform.initStart"},{"type":"platform.initRuntimeDone"},{"type":"platform.initReport"}]`,
+	`[{"type":"platform.telemetrySubscription"},{"type":"platform.extension"}]`,
+	`[]`,
 }
 
 func verifC20(nInvocations int) {
@@ -111,6 +120,7 @@ func verifC20(nInvocations int) {
 	hfh.metricsMergingSem = make(chan struct{}, 1)
 	hfh.metricsMergingSem <- struct{}{}
 
+	runtimeDones := 0
 	var dispatched, flushedUpTo int64 // counter totals: dispatched so far / dispatched before the latest runtime-done
 	delivered := func() int64 {
 		var t int64
@@ -124,6 +134,7 @@ func verifC20(nInvocations int) {
 	rt := &verifLambdaRuntime{events: make(chan string)}
 	rt.onNext = func(k int) {
 		verifAssert(fc.flushes >= k, "GET /next is preceded by a flush (the initial one, then one per finished invocation)")
+		verifAssert(runtimeDones >= k-1, "the next event is requested before the current invocation's runtime-done flush (a flush notification was left over)")
 		verifAssert(slow.inFlight == 0, "GET /next is not issued while a flush's upstream POST is in flight")
 		verifAssert(delivered() == flushedUpTo, "every datapoint accepted before the runtime-done signal has reached the upstream server before GET /next")
 		verifReach("next")
@@ -144,8 +155,18 @@ func verifC20(nInvocations int) {
 	verifSettle()
 	verifAdvanceTime() // the 100 ms start-up window passes without a server error
 	verifSettle()
+	post := func(body string) {
+		req, _ := http.NewRequest("POST", "http://sandbox:8083/telemetry", bytes.NewReader([]byte(body)))
+		ts.VerifEventHandler(&verifRespWriter{hdr: http.Header{}}, req)
+		verifSettle()
+	}
 	for i := 0; i < nInvocations; i++ {
 		verifAssert(rt.nextCalls == i+1, "the extension is waiting in GET /next between invocations")
+		if nondetBool() {
+			// telemetry that is not about the end of an invocation (cold start records etc.)
+			post(verifOtherBatches[nondetIntIn(0, len(verifOtherBatches)-1)])
+			verifAssert(rt.nextCalls == i+1, "telemetry without a runtimeDone record does not make the extension ask for another event")
+		}
 		rt.events <- "INVOKE"
 		verifSettle()
 		// the function runs and emits datapoints
@@ -159,10 +180,8 @@ func verifC20(nInvocations int) {
 		}
 		// the runtime is done: the platform posts a telemetry batch with one runtimeDone record
 		flushedUpTo = dispatched
-		body := verifTelemetryBatches[nondetIntIn(0, len(verifTelemetryBatches)-1)]
-		req, _ := http.NewRequest("POST", "http://sandbox:8083/telemetry", bytes.NewReader([]byte(body)))
-		ts.VerifEventHandler(&verifRespWriter{hdr: http.Header{}}, req)
-		verifSettle()
+		runtimeDones++
+		post(verifTelemetryBatches[nondetIntIn(0, len(verifTelemetryBatches)-1)])
 	}
 	verifAssert(rt.nextCalls == nInvocations+1, "after the last invocation's flush the extension asks for the next event")
 	rt.events <- "SHUTDOWN"
